@@ -382,6 +382,74 @@ def check_range_translation(db, chk):
     chk.ob(R, "visit_between:sides", ok, "visit_between builds Range(low.clone(), high.clone())", h.loc(qs[0]["ln"]) if qs else h.loc())
 
 
+def check_empty_range_guards(db, chk):
+    """Exact indices short-cut ranges that cannot contain anything.  Wherever a search matches on the pair of bound kinds and
+    compares the two bound values, the inclusive-inclusive case [v, v] still contains v: it may be declared empty by `>` only,
+    never by `>=` (nor `<=` with the operands swapped)."""
+    from engine.cfg import op_place
+    R = "TABLE-empty-range"
+    chk.rule(R, "a two-sided range with both bounds inclusive is never declared empty by a non-strict comparison of its bounds")
+    n = 0
+    for f in sorted(db.fns.values(), key=lambda f: (f.file, f.line)):
+        if not f.focus or "lance-index/src/scalar/" not in f.file or f.file.endswith("expression.rs"):
+            continue
+        c = f.cfg
+        groups = {}
+        for b in sorted(c.reach0):
+            si = c.switch_info(b)
+            if si and si["kind"] == "enum" and (si["adt"] or "").endswith("ops::Bound") and si["place"] and "Included" in si["label_to"]:
+                flds = [e["f"] for e in si["place"][1:] if isinstance(e, dict) and str(e.get("f", "")).isdigit()]
+                if flds:
+                    groups.setdefault((si["place"][0], flds[0]), []).append(b)
+        roots = {}
+        for (root, fld), bs in groups.items():
+            roots.setdefault(root, {})[fld] = bs
+        for root, by in roots.items():
+            if not ("0" in by and "1" in by):
+                continue
+            def payload_side(op, root=root, depth=8):
+                # '0' / '1' when the operand is (a borrow / copy of) the payload of that tuple field of `root`
+                def of_place(p, depth):
+                    if p is None or depth == 0:
+                        return None
+                    if p[0] == root:
+                        fl = [e["f"] for e in p[1:] if isinstance(e, dict) and str(e.get("f", "")).isdigit()]
+                        return fl[0] if fl else None
+                    if [e for e in p[1:] if e != "*"]:
+                        return None
+                    # a binding of an or-pattern has one definition per alternative: they must agree
+                    sides = set()
+                    for df in c.defs.get(p[0], {"whole": []})["whole"]:
+                        if df[1] not in c.reach0:
+                            continue
+                        if df[0] != "assign":
+                            return None
+                        rv = df[3]["rv"]
+                        q = rv.get("place") if rv["r"] == "ref" else (op_place(rv["op"]) if rv["r"] == "use" else None)
+                        sides.add(of_place(q, depth - 1))
+                    return sides.pop() if len(sides) == 1 else None
+                return of_place(op_place(op), depth)
+            cmps = [(b, t) for b, t in c.calls() if any(nm.endswith(("::ge", "::gt", "::le", "::lt")) and "PartialOrd" in nm for nm in [name_of(t)]) and
+                    any(c.dominates(x, b) for x in by["0"] + by["1"]) and
+                    any(b in c.reachable_from([x]) for x in by["0"]) and any(b in c.reachable_from([x]) for x in by["1"]) and
+                    {payload_side(t["args"][0]), payload_side(t["args"][1])} == {"0", "1"}]
+            if not cmps:
+                continue
+            n += 1
+            chk.analysed(f)
+
+            def ef(b, by=by):
+                if b in by["0"] or b in by["1"]:
+                    return [c.switch_info(b)["label_to"]["Included"]]
+                return None
+            reach = c.reachable_from([0], include_start=True, edge_filter=ef)
+            ops = sorted({name_of(t).split("::")[-1] for b, t in cmps if b in reach})
+            chk.ob(R, "inclusive-inclusive:%s" % f.path.split("::{closure")[0].split("::")[-1], not ({"ge", "le"} & set(ops)),
+                   "%s: with both bounds inclusive the bound values are compared with %s (a non-strict comparison would declare [v, v] empty)" % (
+                       f.path.split("::{closure")[0], ops or "nothing"), f.loc(cmps[0][1]["ln"]))
+    chk.floor(R, "range-emptiness guards found in the exact indices", n, 1)
+
+
 def _derives(c, start, target, limit=60):
     seen, work = set(), [start]
     from engine.cfg import op_place
@@ -417,6 +485,7 @@ def run(db, chk):
     check_planner_tables(db, chk)
     check_null_guards(db, chk)
     check_range_translation(db, chk)
+    check_empty_range_guards(db, chk)
     check_exact_indices(db, chk)
     chk.extra["exhaustive"] = True
     chk.info("sibling parsers without NULL guards (LabelListQueryParser; BloomFilterQueryParser always rechecks) are deviations listed for review, not violations")
